@@ -24,6 +24,8 @@ class TLCError(Exception):
 
 
 def scratch_root() -> str:
+    if os.environ.get("VERIF_SCRATCH") and os.path.isdir(os.environ["VERIF_SCRATCH"]):
+        return os.environ["VERIF_SCRATCH"]
     base = "/dev/shm" if os.path.isdir("/dev/shm") and os.access("/dev/shm", os.W_OK) else tempfile.gettempdir()
     return base
 
